@@ -151,7 +151,75 @@ def core(n):
         if len(inner) == 1:
             return core(inner[0])
         return mk("init")
+    if k == "LambdaExpr":
+        # a lambda expression is kept as a closed description (no children: what it says is not executed where it stands)
+        return dict(k="lambda", t=t, n=None, a=[], lam=lambda_info(n))
     return mk("?" + str(k), n.get("name"))
+
+
+LOCAL_DECLS = ("VarDecl", "ParmVarDecl", "BindingDecl")
+
+
+def lambda_info(n):
+    """the closure a LambdaExpr creates: caps = [(name | 'this', by reference?)] in capture order, ops = the bodies of
+    operator() (one; for a generic lambda one per instantiation): params [(name, type)], rt, body (core), free = names of
+    variables the body mentions that are neither its own nor captured by a simple capture (globals -- or an init-capture,
+    which has no rule: the translation refuses a lambda whose free names are locals of the enclosing function).
+    bad = why the closure has no meaning here, or None."""
+    inner = n.get("inner", [])
+    info = dict(caps=[], ops=[], bad=None)
+    if len(inner) < 2 or inner[0].get("kind") != "CXXRecordDecl" or inner[-1].get("kind") != "CompoundStmt":
+        info["bad"] = "shape of the lambda expression"
+        return info
+    rec, inits = inner[0], inner[1:-1]
+    fields = [c for c in rec.get("inner", []) if c.get("kind") == "FieldDecl"]
+    if len(fields) != len(inits):
+        info["bad"] = "%d captures with %d initialisers" % (len(fields), len(inits))
+        return info
+    capids = set()
+    for f, i in zip(fields, inits):
+        while (i.get("kind") in SKIP or i.get("kind") == "CXXConstructExpr") and len(i.get("inner", [])) == 1:
+            i = i["inner"][0]      # the copy a by-value capture makes
+        ft = ty(f).strip()
+        if i.get("kind") == "CXXThisExpr" and ft.endswith("*"):
+            info["caps"].append(("this", True))
+        elif i.get("kind") == "DeclRefExpr" and i.get("referencedDecl", {}).get("kind") in ("VarDecl", "ParmVarDecl"):
+            info["caps"].append((i["referencedDecl"].get("name"), ft.endswith("&")))
+            capids.add(i["referencedDecl"].get("id"))
+        else:
+            info["bad"] = "a capture that is neither this nor a variable (an init-capture, *this, ...)"
+            return info
+    ops = []
+    for c in rec.get("inner", []):
+        if c.get("kind") == "CXXMethodDecl" and c.get("name") == "operator()":
+            ops.append(c)
+        elif c.get("kind") == "FunctionTemplateDecl" and c.get("name") == "operator()":
+            # generic lambda: the instantiations (the pattern itself is dependent code)
+            ops += [m for m in c.get("inner", []) if m.get("kind") == "CXXMethodDecl"
+                    and any(x.get("kind") == "TemplateArgument" for x in m.get("inner", []))]
+    for m in ops:
+        body = [c for c in m.get("inner", []) if c.get("kind") == "CompoundStmt"]
+        if len(body) != 1:
+            info["bad"] = "operator() without a body"
+            return info
+        mt = ty(m)
+        if not re.search(r"\)\s*const\b", mt):
+            info["bad"] = "a mutable lambda"
+            return info
+        rt = mt[mt.rfind("->") + 2:].strip() if "->" in mt else mt.split("(")[0].strip()
+        own, refs = set(), []
+
+        def scan(o):
+            if o.get("kind") in LOCAL_DECLS:
+                own.add(o.get("id"))
+            if o.get("kind") == "DeclRefExpr" and o.get("referencedDecl", {}).get("kind") in LOCAL_DECLS:
+                refs.append((o["referencedDecl"].get("name"), o["referencedDecl"].get("id")))
+            for x in o.get("inner", []):
+                scan(x)
+        scan(m)
+        info["ops"].append(dict(params=[(c.get("name"), ty(c)) for c in m["inner"] if c.get("kind") == "ParmVarDecl"], rt=rt,
+                                body=core(body[0]), free=sorted({nm for nm, i in refs if i not in own and i not in capids})))
+    return info
 
 
 def show(c):
@@ -241,6 +309,7 @@ class Tr:
         self.inlining = []
         self.sigs = {}      # method -> (param kinds, ret kind)
         self.calls = {}
+        self.lams = {}      # the named lambdas of the method being translated: name -> closure (None: name used twice)
 
     # ---- helpers
     def fresh(self, base="t"):
@@ -417,6 +486,8 @@ class Tr:
             if c["n"] == "yes" and "peek" in c["t"]:
                 return [], "true", "peek"
             if c["n"] in env:
+                if env[c["n"]][1] == "lambda":
+                    raise Unsupported("the lambda %s used other than by calling it / handing it to std::for_each" % c["n"])
                 return [], env[c["n"]][0], env[c["n"]][1]
             raise Unsupported("reference to %s" % c["n"])
         if k == "field":
@@ -515,6 +586,9 @@ class Tr:
                 if kd == "mit":
                     return b, t, "mit->"
                 raise Unsupported("operator-> on %s" % kd)
+            if op == "operator()" and c["a"] and self.lambda_of(c["a"][0], env) is not None:
+                # f(args), f a local lambda: its body, here, with the parameters bound to the arguments
+                return self.call_lambda(c, st, env, writes=False)
             raise Unsupported("operator %s as a value" % op)
         if k == "member":
             b, t, kd = self.E(c["a"][0], st, env)
@@ -553,6 +627,9 @@ class Tr:
             if k0 == "list" and m == "back":
                 x = self.fresh("bk")
                 return b0 + ["do %s <- l_back %s;" % (x, t0)], x, "nat"
+            if k0 == "list" and m == "front" and not args:
+                # l.front() is *l.begin()  ([sequence.reqmts]); undefined on an empty list, as that dereference is
+                return self.E(dict(k="op", t=c["t"], n="operator*", a=[dict(c, n="begin")]), st, env)
             if k0 == "umap" and m == "find":
                 b1, t1, k1 = self.E(args[0], st, env)
                 return b0 + b1, "(mit_find %s %s)" % (t0, t1), "mit"
@@ -654,9 +731,186 @@ class Tr:
             tgt = c["a"][0]
         if tgt is not None and tgt["k"] == "ref":
             acc.add(tgt["n"])
+        # what calling a local lambda writes (f(args), std::for_each(first, last, f)) is written where it is called; what
+        # its body writes also counts where it is created (a superset: a name that is not written is carried unchanged)
+        fn = c if c["k"] == "lambda" else c["a"][0] if (c["k"] == "op" and c["n"] == "operator()" and c["a"]) else \
+            c["a"][-1] if (c["k"] == "call" and c["n"] == "for_each" and c["a"]) else None
+        if fn is not None and fn["k"] == "ref":
+            fn = dict(k="lambda", lam=self.lams[fn["n"]]) if self.lams.get(fn["n"]) else None
+        if fn is not None and fn["k"] == "lambda" and id(fn["lam"]) not in self.lam_seen:
+            self.lam_seen.append(id(fn["lam"]))
+            for o in fn["lam"]["ops"]:
+                self.assigned(o["body"], acc)
+            self.lam_seen.pop()
         for x in c["a"]:
             self.assigned(x, acc)
         return acc
+
+    # ---- local lambdas:  auto f = [captures](params) { body };  is remembered, not evaluated (creating the closure has no
+    #      effect: a by-value capture copies, a by-reference capture and `this` alias).  What f(args) / std::for_each(.., f)
+    #      mean is the body, translated where it is applied, in an environment of the captured names and the parameters only.
+    #      That is the meaning of the closure provided that, from its creation to the end of its scope,
+    #        - no captured name is declared again (the name still means the captured variable where the body is placed),
+    #        - no variable captured BY VALUE is written (the copy still equals the variable),
+    #      and the body writes neither a by-value capture (the closure is not mutable) nor a reference parameter.
+    lam_seen = []
+
+    def lambda_of(self, c, env):
+        """the closure an expression denotes: a lambda expression, or the name of a remembered one (else None)"""
+        if c["k"] == "lambda":
+            return self.remember_lambda(c, [], env)
+        if c["k"] == "ref" and c["n"] in env and env[c["n"]][1] == "lambda":
+            return env[c["n"]][0]
+        return None
+
+    def declared(self, c, acc):
+        """every name a subtree declares"""
+        if c["k"] in ("var", "sbind", "forrange"):
+            acc.update(c["n"] if isinstance(c["n"], list) else [c["n"]])
+        if c["k"] == "lambda":
+            for o in c["lam"]["ops"]:
+                acc.update(pn for pn, _ in o["params"])
+                self.declared(o["body"], acc)
+        for x in c["a"]:
+            self.declared(x, acc)
+        return acc
+
+    def remember_lambda(self, c, rest, env):
+        """c: the lambda expression; rest: the statements that follow its creation (its scope ends at the first endscope)"""
+        lam = c["lam"]
+        if lam["bad"]:
+            raise Unsupported("lambda: %s" % lam["bad"])
+        if len(lam["ops"]) != 1:
+            raise Unsupported("a lambda with %d bodies (a generic lambda applied at several types, or never applied)" % len(lam["ops"]))
+        op = lam["ops"][0]
+        scope = []
+        for x in rest:
+            if x["k"] == "endscope":
+                break
+            scope.append(x)
+        again, written = set(), set()
+        for x in scope:
+            self.declared(x, again)
+            self.assigned(x, written)
+        names = [n for n, _ in lam["caps"] if n != "this"]
+        for n, byref in lam["caps"]:
+            if n == "this":
+                continue
+            if n not in env or env[n][1] == "lambda":
+                raise Unsupported("lambda capturing %s, which is not a translated local" % n)
+            if not isinstance(env[n][0], str):
+                raise Unsupported("lambda capturing the local %s, which is not a value" % n)
+            if n in again:
+                raise Unsupported("the name %s, captured by a lambda, is declared again in the scope of the lambda" % n)
+            if not byref and n in written:
+                raise Unsupported("the local %s is captured by value and assigned after the lambda is created" % n)
+        for n in op["free"]:
+            if n in env or n in again:
+                raise Unsupported("lambda mentioning the local %s without a simple capture of it" % n)
+        wr = self.assigned(op["body"])
+        for (pn, pt) in op["params"]:
+            if pn in wr and pt.strip().endswith("&"):
+                raise Unsupported("lambda writing its reference parameter %s" % pn)
+        return dict(op=op, caps=names, byref={n for n, r in lam["caps"] if r}, t=c["t"])
+
+    def lambda_env(self, lam, env):
+        return {n: v for n, v in env.items() if n in lam["caps"] or n.startswith("__")}
+
+    def call_lambda(self, c, st, env, writes):
+        """f(args) -> (bind lines, term, kind).  The body is translated in place; it yields the state (if it changes it),
+        the captured locals it writes (only when the call is a statement: writes=True) and the value it returns."""
+        lam, args = self.lambda_of(c["a"][0], env), c["a"][1:]
+        op = lam["op"]
+        if len(args) != len(op["params"]):
+            raise Unsupported("%d arguments for the %d parameters of a lambda" % (len(args), len(op["params"])))
+        b, lenv = [], self.lambda_env(lam, env)
+        for (pn, pt), a in zip(op["params"], args):
+            bb, t, kd = self.E(a, st, env)
+            try:
+                pk = self.akind(pt, True)
+            except Unsupported:
+                pk = kd          # a type the table does not name (a pair of a range): the parameter IS the argument
+            if pk != kd:
+                raise Unsupported("argument kind %s for parameter kind %s of a lambda" % (kd, pk))
+            b += bb
+            lenv[pn] = (t, kd)
+        rk = self.akind(op["rt"])
+        wr = sorted(n for n in self.assigned(op["body"]) if n in lam["caps"] and n in lenv and n not in [pn for pn, _ in op["params"]])
+        if [n for n in wr if n not in lam["byref"]]:
+            raise Unsupported("lambda writing a local it captured by value")
+        if wr and not writes:
+            raise Unsupported("a call of a lambda that writes the captured %s, used as a value" % wr)
+        s0, n0 = st[0], self.n
+
+        def run(stateful):
+            exits = []
+
+            def out(st_, env_, t):
+                exits.append(st_[0])
+                parts = ([st_[0]] if stateful else []) + [env_[n][0] for n in wr] + ([t] if rk != "unit" else [])
+                return "Ok %s" % (("(" + ", ".join(parts) + ")") if len(parts) > 1 else parts[0] if parts else "tt")
+
+            def done(st_, env_):
+                if rk != "unit":
+                    raise Unsupported("control reaches the end of a non-void lambda")
+                return out(st_, env_, None)
+
+            def ret(st_, env_, t, kd):
+                if kd == "val" and rk == "optval":
+                    t, kd = "(Some %s)" % t, "optval"
+                if kd != rk:
+                    raise Unsupported("return of kind %s in a lambda returning %s" % (kd, rk))
+                return out(st_, env_, t)
+            text = self.S([op["body"]], [s0], dict(lenv), (done, ret, None))
+            return text, any(e != s0 for e in exits)
+        text, changes = run(False)
+        if changes:
+            self.n = n0
+            text, _ = run(True)
+        x = self.fresh("x")
+        lines = b + ["do %s <- (" % x, text, ");"]
+        pat = []
+        if changes:
+            st[0] = self.fresh("s")
+            pat.append(st[0])
+        for n in wr:
+            env[n] = (self.fresh("v_" + n + "_"), env[n][1])
+            pat.append(env[n][0])
+        r = "tt"
+        if rk != "unit":
+            r = self.fresh("r")
+            pat.append(r)
+        if len(pat) == 1 and pat[0] == r:
+            r = x
+        elif pat:
+            lines.append("let %s := %s in" % (("'(" + ", ".join(pat) + ")") if len(pat) > 1 else pat[0], x))
+        return lines, r, rk
+
+    def visible(self, n, c):
+        """in the body of a loop made from std::for_each(.., f): only what f captured (and the translator's own entries)"""
+        return "visible" not in c or n in c["visible"] or n.startswith("__")
+
+    def for_each_loop(self, c, env):
+        """std::for_each(first, last, f) as a statement -> the loop it is ([alg.foreach]: f applied to the result of
+        dereferencing every iterator of [first, last), in order; the returned copy of f is dropped).
+        Base rule: first, last = begin / end of ONE range r  ->  for (auto&& x : r) { body of f }  with x the parameter."""
+        first, last, fn = c["a"]
+        lam = self.lambda_of(fn, env)
+        if lam is None:
+            raise Unsupported("std::for_each with something else than a local lambda")
+        op = lam["op"]
+        if len(op["params"]) != 1:
+            raise Unsupported("std::for_each with a lambda of %d parameters" % len(op["params"]))
+        if self.akind(op["rt"]) != "unit":
+            raise Unsupported("std::for_each with a lambda that returns a value")
+        return self.for_each_over(first, last, op["params"][0], op["body"], set(lam["caps"]), env)
+
+    def for_each_over(self, first, last, param, body, visible, env):
+        if first["k"] in ("call", "mcall") and last["k"] == first["k"] and (first["n"], last["n"]) == ("begin", "end") \
+                and len(first["a"]) == 1 and len(last["a"]) == 1 and first["a"][0]["k"] == "ref" and show(first["a"][0]) == show(last["a"][0]) \
+                and first["a"][0]["n"] in env and env[first["a"][0]["n"]][1] in self.RANGE_ELEMS:
+            return dict(k="forrange", t=param[1], n=[param[0]], a=[first["a"][0], body], visible=visible)
+        raise Unsupported("std::for_each other than from the begin to the end of one range")
 
     def tuple_of(self, st, env, names):
         return "(" + ", ".join([st[0]] + [env[n][0] for n in names]) + ")" if names else st[0]
@@ -685,6 +939,12 @@ class Tr:
             for v in c["a"]:
                 if v["k"] == "sbind":
                     lines += self.sbind(v, st, env)
+                    continue
+                if v["k"] == "var" and len(v["a"]) == 1 and v["a"][0]["k"] == "lambda":
+                    # (closure types cannot be assigned: the name means this closure until its scope ends)
+                    if self.lams.get(v["n"]) is not v["a"][0]["lam"]:
+                        raise Unsupported("two lambdas named %s in one function" % v["n"])
+                    env[v["n"]] = (self.remember_lambda(v["a"][0], c["a"][c["a"].index(v) + 1:] + rest, env), "lambda")
                     continue
                 kd = self.akind(v["t"])
                 if kd == "guard":
@@ -772,12 +1032,12 @@ class Tr:
             if has_return(body):
                 raise Unsupported("return inside a range-for loop")
             br, tr, kr = self.E(rng, st, env)
-            names = sorted(n for n in self.assigned(body) if n in env)
+            names = sorted(n for n in self.assigned(body) if n in env and self.visible(n, c))
             fill = kr in self.FILL_OUT
             if fill:
                 env["__fill"] = ("[]", self.FILL_OUT[kr])
                 names = names + ["__fill"]
-            benv = dict(env)
+            benv = {n: v for n, v in env.items() if self.visible(n, c)}
             bst = [self.fresh("s")]
             for n in names:
                 benv[n] = (self.fresh("v_" + n.strip("_") + "_"), env[n][1])
@@ -824,6 +1084,8 @@ class Tr:
                 env[n] = (self.fresh("v_" + n.strip("_") + "_"), env[n][1])
             lines.append("let '%s := %s in" % (self.tuple_of([ns], env, names), j) if names else "let %s := %s in" % (ns, j))
             return "\n".join(lines + [self.S(rest, [ns], env, K)])
+        if k == "call" and c["n"] == "for_each" and len(c["a"]) == 3:
+            return self.S([self.for_each_loop(c, env)] + rest, st, env, K)
         # expression statements
         lines = self.X(c, st, env)
         return "\n".join(lines + [self.S(rest, st, env, K)])
@@ -837,6 +1099,8 @@ class Tr:
         if r is not None:
             return r
         k = c["k"]
+        if k == "op" and c["n"] == "operator()" and c["a"] and self.lambda_of(c["a"][0], env) is not None:
+            return self.call_lambda(c, st, env, writes=True)[0]      # f(args); the value, if any, is dropped
         if k == "un" and c["n"] in ("pre++", "post++") and c["a"][0]["k"] == "ref":
             n = c["a"][0]["n"]
             if n in env and env[n][1] == "nat":
@@ -988,6 +1252,17 @@ class Tr:
     #        it = l.begin()                    -> l_begin l
     #        index.max_load_factor(f)          -> no effect on the model, but must come BEFORE reserve
     #        index.reserve(n)                  -> the index may hold n entries without rehashing: cap := n
+    #        it(l.begin()) / it = l.begin() before l is numbered -> the first node of l: l_begin of what l holds when
+    #                                             the constructor is done (assigning through nodes moves none; a later
+    #                                             push_back is refused: begin() of an empty list is end())
+    #        size_t x{k}; / size_t x = k;      -> let x := k
+    #        x++ / ++x (as a value too)        -> let x' := S x  (value: x / x')
+    #        for (auto& n : l) { .. n = e; .. } over the value-initialised nodes of l
+    #                                          -> fold_left over the nodes in order; the values written, in order, are
+    #                                             what l holds afterwards (every node must be written exactly once)
+    #        for (size_t i = a; i < b; ++i) B  -> fold_left (fun acc i => B) (seq a (b - a)): B runs for i = a .. b-1 in
+    #                                             order (i and b not written in B, no break/return)
+    #        l.push_back(e)                    -> l ++ [e]
     EMPTY_KINDS = ("umap", "mmap", "tmap", "kmap")      # containers whose default construction is the empty content
 
     def ctor_init(self, F, member, c, env):
@@ -1012,6 +1287,8 @@ class Tr:
             F[coq] = "[]"
         elif kind == "liter" and c["k"] == "construct" and not c["a"]:
             F[coq] = None
+        elif kind == "liter" and self.ctor_begin_of(F, c) is not None:
+            F[coq] = ("begin", self.ctor_begin_of(F, c))
         elif kind == "nat" and c["k"] == "?CXXDefaultInitExpr":
             d = self.fieldinit.get(member)
             if d is None or d["k"] != "int":
@@ -1045,7 +1322,7 @@ class Tr:
             if kind == "liter" and r["k"] == "mcall" and r["n"] == "begin" and r["a"][0]["k"] == "field":
                 lc, lk = self.f_by_cpp[r["a"][0]["n"]]
                 if lk == "list" and F.get(lc) is not None:
-                    F[coq] = "(l_begin %s)" % F[lc]
+                    F[coq] = ("begin", lc)
                     return
             raise Unsupported("constructor assignment %s" % show(c)[:160])
         if k == "mcall" and c["a"] and c["a"][0]["k"] == "field":
@@ -1061,7 +1338,121 @@ class Tr:
                 F[self.sc["cap"]] = t
                 self.reserved = True
                 return
+        if k == "decls" and all(v["k"] == "var" and len(v["a"]) == 1 and self.akind(v["t"]) == "nat" for v in c["a"]):
+            for v in c["a"]:
+                t = self.ctor_E(v["a"][0], env, self.ctor_lets)
+                x = self.fresh("v_" + v["n"] + "_")
+                self.ctor_lets.append("let %s := %s in" % (x, t))
+                env[v["n"]] = (x, "nat")
+            return
+        if k in ("forrange", "for"):
+            return self.ctor_loop(F, c, env)
+        if k == "un" and c["n"] in ("pre++", "post++"):
+            self.ctor_E(c, env, self.ctor_lets)
+            return
         raise Unsupported("constructor statement %s" % show(c)[:160])
+
+    def ctor_begin_of(self, F, c):
+        """c = l.begin() / std::begin(l) for a list member l that has been initialised: the record field of l"""
+        if c["k"] in ("mcall", "call") and c["n"] == "begin" and len(c["a"]) == 1 and c["a"][0]["k"] == "field":
+            lc, lk = self.f_by_cpp.get(c["a"][0]["n"], (None, None))
+            if lk == "list" and F.get(lc) is not None:
+                return lc
+        return None
+
+    def ctor_E(self, c, env, lines):
+        """a size_t expression over the parameters and locals of the constructor -> term (x++ / ++x bound in lines)"""
+        if c["k"] == "un" and c["n"] in ("pre++", "post++") and c["a"][0]["k"] == "ref" and env.get(c["a"][0]["n"], (None, None))[1] == "nat":
+            n = c["a"][0]["n"]
+            old, new = env[n][0], self.fresh("v_" + n + "_")
+            lines.append("let %s := S %s in" % (new, old))
+            env[n] = (new, "nat")
+            return old if c["n"] == "post++" else new
+        if c["k"] == "int" or (c["k"] == "ref" and env.get(c["n"], (None, None))[1] == "nat"):
+            return self.E(c, ["s"], env)[1]
+        raise Unsupported("constructor expression %s" % show(c)[:160])
+
+    def ctor_loop(self, F, c, env):
+        """a loop of the constructor body as a fold_left; what it carries from one iteration to the next: the list
+        members it writes and the locals it assigns"""
+        def flat(b):
+            return [y for x in b["a"] for y in flat(x)] if b["k"] == "block" else [b]
+        if c["k"] == "forrange":
+            rng, body = c["a"]
+            lc, lk = self.f_by_cpp.get(rng["n"], (None, None)) if rng["k"] == "field" else (None, None)
+            if lk != "list" or lc not in self.unnumbered or len(c["n"]) != 1 or not c["t"].strip().endswith("&") or "const" in c["t"]:
+                raise Unsupported("constructor loop %s" % show(c)[:160])
+            slot, dom, item, pushed = c["n"][0], F[lc], "_", []
+        else:
+            init, cond, inc, body = c["a"][0], c["a"][2], c["a"][3], c["a"][4]
+            ok = init["k"] == "decls" and len(init["a"]) == 1 and init["a"][0]["k"] == "var" and len(init["a"][0]["a"]) == 1 \
+                and self.akind(init["a"][0]["t"]) == "nat" and cond["k"] == "bin" and cond["n"] == "<" and cond["a"][0]["k"] == "ref"
+            i = init["a"][0]["n"] if ok else None
+            ok = ok and cond["a"][0]["n"] == i and cond["a"][1]["k"] in ("ref", "int") and \
+                ((inc["k"] == "un" and inc["n"] in ("pre++", "post++")) or
+                 (inc["k"] == "bin" and inc["n"] == "+=" and inc["a"][1]["k"] == "int" and str(inc["a"][1]["n"]) == "1")) and inc["a"][0] == cond["a"][0]
+            wr = self.assigned(body)
+            if not ok or i in wr or (cond["a"][1]["k"] == "ref" and cond["a"][1]["n"] in wr) or has_exit(body) or i in env:
+                raise Unsupported("constructor loop %s: not  for (size_t i = a; i < b; ++i)  with i and b left alone by the body" % show(c)[:160])
+            a, b = self.ctor_E(init["a"][0]["a"][0], env, self.ctor_lets), self.ctor_E(cond["a"][1], env, self.ctor_lets)
+            slot, lc, item = None, None, self.fresh("v_" + i + "_")
+            dom = "(seq 0 %s)" % b if a == "0" else "(seq %s (%s - %s))" % (a, b, a)
+            pushed = sorted({self.f_by_cpp[s["a"][0]["n"]][0] for s in flat(body) if s["k"] == "mcall" and s["n"] == "push_back"
+                             and s["a"][0]["k"] == "field" and self.f_by_cpp.get(s["a"][0]["n"], (None, None))[1] == "list"})
+        stmts = flat(body)
+        names = sorted(n for n in self.assigned(body) if n in env and n != slot)
+        if any(env[n][1] != "nat" for n in names):
+            raise Unsupported("constructor loop writing %s" % names)
+        for f in pushed:
+            if F.get(f) is None or f in self.unnumbered or any(v == ("begin", f) for v in F.values()):
+                raise Unsupported("push_back on a list member that is not initialised, holds unnumbered nodes, or whose begin() was taken")
+        carried = ([lc] if slot else []) + pushed
+        Fb, envb = dict(F), dict(env)
+        if slot:
+            Fb[lc] = "[]"
+        start = [Fb[f] for f in carried] + [env[n][0] for n in names]
+        for f in carried:
+            Fb[f] = self.fresh("l")
+        for n in names:
+            envb[n] = (self.fresh("v_" + n + "_"), "nat")
+        if not slot:
+            envb[i] = (item, "nat")
+        tup = lambda xs: xs[0] if len(xs) == 1 else "(" + ", ".join(xs) + ")"
+        if not start:
+            raise Unsupported("constructor loop without effect %s" % show(c)[:160])
+        pat = tup([Fb[f] for f in carried] + [envb[n][0] for n in names])
+        lines, written = [], 0
+        for s in stmts:
+            if slot and s["k"] == "bin" and s["n"] == "=" and s["a"][0]["k"] == "ref" and s["a"][0]["n"] == slot:
+                v = self.ctor_E(s["a"][1], envb, lines)
+                x = self.fresh("l")
+                lines.append("let %s := (%s ++ [%s]) in" % (x, Fb[lc], v))
+                Fb[lc] = x
+                written += 1
+            elif s["k"] == "mcall" and s["n"] == "push_back" and len(s["a"]) == 2 and s["a"][0]["k"] == "field" \
+                    and self.f_by_cpp.get(s["a"][0]["n"], (None, None))[0] in pushed:
+                f = self.f_by_cpp[s["a"][0]["n"]][0]
+                v = self.ctor_E(s["a"][1], envb, lines)
+                x = self.fresh("l")
+                lines.append("let %s := (%s ++ [%s]) in" % (x, Fb[f], v))
+                Fb[f] = x
+            elif s["k"] == "un" and s["n"] in ("pre++", "post++"):
+                self.ctor_E(s, envb, lines)
+            else:
+                raise Unsupported("statement of a constructor loop %s" % show(s)[:160])
+        if slot and written != 1:
+            raise Unsupported("a loop over the nodes of %s that does not write every node exactly once" % rng["n"])
+        res = tup([Fb[f] for f in carried] + [envb[n][0] for n in names])
+        for f in carried:
+            F[f] = self.fresh("l")
+        for n in names:
+            env[n] = (self.fresh("v_" + n + "_"), "nat")
+        out = tup([F[f] for f in carried] + [env[n][0] for n in names])
+        head = "fold_left (fun %s %s =>" % (pat, item) if len(start) == 1 else "fold_left (fun acc %s => let '%s := acc in" % (item, pat)
+        self.ctor_lets += ["let %s%s := %s" % ("'" if len(start) > 1 else "", out, head)] + ["  " + l for l in lines] + \
+                          ["  %s) %s %s in" % (res, dom, tup(start))]
+        if slot:
+            self.unnumbered.discard(lc)      # every node now holds the value the loop wrote to it
 
     def ctor_param(self, pn, t, env, params):
         """family hook: a constructor parameter with a special representation (True = handled)"""
@@ -1084,7 +1475,7 @@ class Tr:
             params.append("(p_%s : %s)" % (pn, self.COQTY[kd]))
         F = {f: None for f, _, _ in self.sc["fields"]}
         F.update(self.sc.get("ctor_const", {}))      # record fields without a C++ counterpart
-        self.unnumbered, self.reserved = set(), False
+        self.unnumbered, self.reserved, self.ctor_lets = set(), False, []
         for member, c in inits:
             self.ctor_init(F, member, c, env)
         for c in body["a"]:
@@ -1094,7 +1485,14 @@ class Tr:
         missing = [f for f, v in F.items() if v is None]
         if missing:
             raise Unsupported("constructor leaves %s unset" % missing)
-        return self.ctor_record(F, params)
+        for f, v in F.items():
+            if isinstance(v, tuple) and v[0] == "begin":
+                F[f] = "(l_begin %s)" % F[v[1]]
+        text = self.ctor_record(F, params)
+        if self.ctor_lets:      # the locals and loops of the body, in front of the record
+            head, _, rec = text.partition(" := ")
+            text = head + " :=\n" + "\n".join("  " + l for l in self.ctor_lets) + "\n  " + rec
+        return text
 
     def ctor_record(self, F, params):
         rec = "; ".join("%s := %s" % (f, F[f]) for f, _, _ in self.sc["fields"])
@@ -1118,6 +1516,15 @@ class Tr:
         ps, rt, body = self.methods[m][0]
         if not as_lambda:
             self.cur = m
+        outer_lams, self.lams = self.lams, {}
+        try:
+            named_lambdas(body, self.lams)
+            return self.method_text(m, as_lambda)
+        finally:
+            self.lams = outer_lams
+
+    def method_text(self, m, as_lambda):
+        ps, rt, body = self.methods[m][0]
         pk, rk = self.sig(m)
         env, params = {}, []
         for names, kd in self.params(m):
@@ -1215,6 +1622,17 @@ class Tr:
 
 def has_return(c):
     return c["k"] == "return" or any(has_return(x) for x in c["a"])
+
+
+def named_lambdas(c, acc):
+    """name -> closure for every  auto f = [..](..) {..};  below c (a name declared twice gets None: not followed)"""
+    if c["k"] == "var" and len(c["a"]) == 1 and c["a"][0]["k"] == "lambda":
+        acc[c["n"]] = None if c["n"] in acc else c["a"][0]["lam"]
+    if c["k"] == "lambda":
+        for o in c["lam"]["ops"]:
+            named_lambdas(o["body"], acc)
+    for x in c["a"]:
+        named_lambdas(x, acc)
 
 
 def has_exit(c):
